@@ -1050,3 +1050,19 @@ func methodArgs(cc *ssa.CallCommon) []ssa.Value {
 	}
 	return cc.Args
 }
+
+// minMaxArgs: v is a call of the builtin min / max (kind) or of a module function of that
+// shape; returns its arguments.
+func minMaxArgs(v ssa.Value, kind string) ([]ssa.Value, bool) {
+	call, ok := stripConv(v).(*ssa.Call)
+	if !ok {
+		return nil, false
+	}
+	if b, isB := call.Call.Value.(*ssa.Builtin); isB && b.Name() == kind {
+		return call.Call.Args, true
+	}
+	if callee := call.Call.StaticCallee(); callee != nil && isIntLike(call.Type()) && minMaxKind(callee) == kind {
+		return call.Call.Args, true
+	}
+	return nil, false
+}
